@@ -25,6 +25,9 @@ CH["C09"] = dict(level="exploration", design="3/C09", technique="deterministic s
 CH["C08"] = dict(level="fault_enumeration", design="3/C08", technique="deterministic simulation with fault injection: per sampled workload, every cut offset / read-call / write-call / scheduler-step fault position is executed against a fault-free baseline",
    text="For each seeded workload (RTMP session of two real endpoints incl. handshake; FLV file; nesting of errors constructors) the fault-free run is recorded, then every position of one fault dimension is executed: cut at every byte offset, sticky sentinel read error at every read call (0 or >0 bytes alongside), sentinel write error at every write call (zero/partial/full acceptance), error-free short write at every write call, endpoint close at every scheduler step; FLV write faults are followed by reading the torn file. Oracle: the call in progress fails; errors.Cause is identical to the injected sentinel (io.EOF/io.ErrUnexpectedEOF for cuts, io.ErrShortWrite for short writes); returned items are exactly those whose last byte lies before the fault; message chain kept. Positions are exhaustive per workload, workloads are sampled.",
    note="Trusted: baseline run of the same plan for byte offsets; injected errors are sticky. RTMP handshake region is sampled (boundaries +-2 and a stride) in 90% of workloads and exhaustive in 10%.")
+CH["C02"] = dict(level="exploration", design="3/C02", technique="deterministic simulation: real reader against a reference spec chunker stub over a sim reader; seeded chunk-level interleaving, header-type choices, rule-breaking injections and read segmentation",
+   text="Seeded search over chunk traces a conformant RTMP 1.0 sender can emit (up to 6 chunk streams with ids 2..65599 in 1/2/3-byte form, all legal header-type mixes with deltas and extended timestamps, chunk-level interleaving, Set Chunk Size in between) x read segmentation; oracle: decoded messages equal the chunker's in completion order with 31-bit timestamps, clean EOF. 32% of traces carry one injected rule-breaking chunk (or the librtmp ping form) with the expected verdict: error at the offending chunk, nothing fabricated; ping form accepted. Sampling, not proof.",
+   note="Trusted: reference chunker (ref/chunker.go), cross-checked on every conformant trace by the independent reference parser (ref/rtmp.go).")
 def main():
     import os
     extra = {}
